@@ -184,6 +184,146 @@ example :
     certFor x509ish sec (fun _ => some old) [97] 5000000000 = fresh sec [97] 5000000000 ∧
       certFor x509ish sec (fun _ => some old) [97] 1500000000 = old := by decide
 
+/-! ## C2. Names of every length; one cache entry per name
+
+  "aaaa…a.test" below = 60 × 'a' (97) followed by ".test" (46,116,101,115,116): 65 characters, one
+  more than RFC 5280's ub-common-name; its first 64 characters are "aaaa…a.tes". -/
+
+/-- the model of the tree (`certFor`, `cacheAfter`) is the handling that keeps the name as it is -/
+theorem c07_tree_keeps_name (vf : Verifier) (validity : Int) (cache : Cache) (name : Bytes) (now : Int) :
+    certForH .verbatim vf validity cache name now = certFor vf validity cache name now ∧
+      cacheAfterH .verbatim vf validity cache name now = cacheAfter vf validity cache name now :=
+  ⟨rfl, rfl⟩
+
+/-- for a requested name of EVERY length `len` (DNS names run to 253 characters; nothing here stops
+    there), from any cache state: the leaf served verifies for the name, its name set contains the
+    requested name — up to ASCII case, all `len` characters of it — and the SAN kind is the name's -/
+theorem c07_leaf_valid_for_name_of_any_length {validity : Int} (hv : sec ≤ validity) (cache : Cache)
+    (len : Nat) (sni connectHost : Bytes) (hlen : (certName sni connectHost).length = len) (now : Int) :
+    let n := certName sni connectHost
+    let c := certForH .verbatim x509ish validity cache n now
+    x509ish c n now = true ∧ (∃ m ∈ leafNames c, eqFold m n = true ∧ m.length = len) ∧
+      c.kind = san n := by
+  intro n c
+  have h : x509ish c n now = true := certFor_verifies hv (x509ish_fresh validity) cache n now
+  have hs := x509ish_san h
+  refine ⟨h, ⟨c.sanVal, by simp [leafNames], hs.2, ?_⟩, hs.1⟩
+  rw [eqFold_length hs.2]; exact hlen
+
+/-- a leaf issued on a miss carries the requested name itself, uncut, as its only SAN and as common
+    name (the code enforces no ub-common-name), for every length -/
+theorem c07_fresh_leaf_keeps_name_of_any_length (vf : Verifier) (validity : Int) (cache : Cache)
+    (name : Bytes) (now : Int) (hmiss : cache name = none) :
+    let c := certForH .verbatim vf validity cache name now
+    leafNames c = [name] ∧ c.cn = name ∧ c.cn.length = name.length := by
+  simp [certForH, hmiss, leafNames, fresh, issuedName]
+
+example : ((certForH .verbatim x509ish sec (fun _ => none)
+    (List.replicate 60 97 ++ [46,116,101,115,116]) 5000000000).sanVal).length = 65 := by decide
+
+/-- the cache key is injective on names -/
+theorem c07_cache_key_injective {a b : Bytes} (h : cacheKey .verbatim a = cacheKey .verbatim b) :
+    a = b := h
+
+/-- two different names never share a cache entry: a handshake for `a` leaves the entry of every
+    other name as it was, whatever it stores … -/
+theorem c07_cache_entry_per_name (vf : Verifier) (validity : Int) (cache : Cache) (a : Bytes)
+    (now : Int) {b : Bytes} (hab : b ≠ a) :
+    cacheAfterH .verbatim vf validity cache a now b = cache b := by
+  rw [cacheAfterH_verbatim]
+  unfold cacheAfter
+  cases hc : cache a with
+  | none => simp [hab]
+  | some c =>
+    by_cases hv : vf c a now = true
+    · simp [hv]
+    · simp [hv, hab]
+
+/-- … and what it served is what the next lookup of `a` finds -/
+theorem c07_served_leaf_is_cached (vf : Verifier) (validity : Int) (cache : Cache) (a : Bytes)
+    (now : Int) :
+    cacheAfterH .verbatim vf validity cache a now a =
+      some (certForH .verbatim vf validity cache a now) := by
+  rw [cacheAfterH_verbatim, certForH_verbatim]
+  unfold cacheAfter certFor
+  cases hc : cache a with
+  | none => simp
+  | some c =>
+    by_cases hv : vf c a now = true
+    · simp [hv, hc]
+    · simp [hv]
+
+/-- over every history: one certificate is served for two requests only when both ask for the same
+    name up to ASCII case — names that differ anywhere, also only beyond their 64th character, never
+    get each other's leaf -/
+theorem c07_leaf_never_served_for_another_name {validity : Int} (hv : sec ≤ validity) (cache : Cache)
+    (ops : List Op) {s₁ s₂ : Served} (h₁ : s₁ ∈ run x509ish validity cache ops)
+    (h₂ : s₂ ∈ run x509ish validity cache ops) (hne : eqFold s₁.name s₂.name = false) :
+    s₁.cert ≠ s₂.cert := by
+  intro hc
+  rw [run_cert_one_name hv cache ops h₁ h₂ hc] at hne
+  cases hne
+
+/-- the statement for an arbitrary handling of the name -/
+def c07_any_length_full (h : NameHandling) : Prop :=
+  ∀ validity : Int, sec ≤ validity → ∀ (cache : Cache) (name : Bytes) (now : Int),
+    x509ish (certForH h x509ish validity cache name now) name now = true
+
+/-- it holds of the tree's handling, for every cache state, name and instant -/
+theorem c07_any_length : c07_any_length_full .verbatim :=
+  fun _ hv cache name now => certFor_verifies hv (x509ish_fresh _) cache name now
+
+/-- the variant that cuts the name to `k` bytes between lookup and template fails for EVERY name
+    longer than `k` that is not already cached: the leaf's SAN is shorter than the name -/
+theorem c07_cut_fails_every_longer_name (k : Nat) (validity : Int) (cache : Cache) (name : Bytes)
+    (now : Int) (hmiss : cache name = none) (hlong : k < name.length) :
+    x509ish (certForH (.cutAt k) x509ish validity cache name now) name now = false := by
+  cases hx : x509ish (certForH (.cutAt k) x509ish validity cache name now) name now with
+  | false => rfl
+  | true =>
+    have hl := eqFold_length (x509ish_san hx).2
+    simp only [certForH, hmiss, fresh, issuedName, hlong, if_true] at hl
+    rw [List.length_take] at hl
+    omega
+
+/-- kernel-checked witness, cut at 64: "aaaa…a.test" (65 characters) gets a leaf whose only name is
+    "aaaa…a.tes", which does not verify for the name asked for, and the leaf is stored where the
+    next lookup of the name does not find it -/
+theorem c07_cut_name_witness :
+    let n : Bytes := List.replicate 60 97 ++ [46,116,101,115,116]
+    let c := certForH (.cutAt 64) x509ish sec (fun _ => none) n 5000000000
+    n.length = 65 ∧ leafNames c = [List.replicate 60 97 ++ [46,116,101,115]] ∧
+      x509ish c n 5000000000 = false ∧
+      cacheAfterH (.cutAt 64) x509ish sec (fun _ => none) n 5000000000 n = none := by decide
+
+theorem c07_cut_any_length_full_false : ¬ c07_any_length_full (.cutAt 64) := by
+  intro h
+  have := h sec (Int.le_refl _) (fun _ => none) (List.replicate 60 97 ++ [46,116,101,115,116]) 5000000000
+  rw [c07_cut_fails_every_longer_name 64 sec _ _ _ rfl (by decide)] at this
+  cases this
+
+/-- kernel-checked witness, cut at 64: "aaaa…a.test" and "aaaa…a.tesu" agree in their first 64
+    characters — one cache key, one and the same leaf for both, valid for neither; the entry a
+    handshake for the first stores is the entry of the second -/
+theorem c07_cut_cache_key_witness :
+    let a : Bytes := List.replicate 60 97 ++ [46,116,101,115,116]
+    let b : Bytes := List.replicate 60 97 ++ [46,116,101,115,117]
+    a ≠ b ∧ cacheKey (.cutAt 64) a = cacheKey (.cutAt 64) b ∧
+      certForH (.cutAt 64) x509ish sec (fun _ => none) a 5000000000 =
+        certForH (.cutAt 64) x509ish sec (fun _ => none) b 5000000000 ∧
+      cacheAfterH (.cutAt 64) x509ish sec (fun _ => none) a 5000000000 (cacheKey (.cutAt 64) b) =
+        some (certForH (.cutAt 64) x509ish sec (fun _ => none) a 5000000000) ∧
+      x509ish (certForH (.cutAt 64) x509ish sec (fun _ => none) b 5000000000) b 5000000000 = false := by
+  decide
+
+theorem c07_cut_cache_key_not_injective :
+    ¬ ∀ a b : Bytes, cacheKey (.cutAt 64) a = cacheKey (.cutAt 64) b → a = b := by
+  intro h
+  have := h (List.replicate 60 97 ++ [46,116,101,115,116]) (List.replicate 60 97 ++ [46,116,101,115,117])
+    (by decide)
+  revert this
+  decide
+
 /-! ## D. Which CONNECTs are intercepted -/
 
 /-- a host the exclude list matches is not intercepted: tunnel path -/
